@@ -4,7 +4,7 @@
 //! splitting. Code paths gated on graph size (a parallel fast path that only switches on
 //! above some node count, a chunked build) are out of their reach. This leg runs the real
 //! `finish()` on a real rayon pool of each chosen size over a one-node-per-k-mer graph of
-//! 70k-140k nodes (quick) or up to 10^6 (thorough) and compares every answer with
+//! 70k-140k nodes and one of more than 2^20 nodes (quick), six up to 1.1*10^6 (thorough) and compares every answer with
 //! `finish_serial()` and with a second run. The schedules here are NOT controlled by the
 //! simulator: this is an observation of real executions, kept out of the simulation claims
 //! and labelled as such in the evidence; on a tree where the property holds its outcome is
@@ -43,8 +43,18 @@ fn build_base(seed: u64, n_target: usize, stranded: bool) -> BaseGraph<K, u16> {
     let extra = (n_target / 60).max(1);
     let longer: Vec<Vec<u8>> = (0..extra).map(|_| { let l = rng.range(17, 48); dna::random_seq(&mut rng, l, &[0, 1, 2, 3]) }).collect();
     let lg = simcore::pipe::base_graph_counts::<K>(&longer, stranded, 1);
+    // keep terminal k-mers distinct (the index's precondition): a longer node whose first or last
+    // k-mer is already one of the graph's k-mers is left out
+    let mut seen: std::collections::HashSet<K> = table.iter().map(|(k, _, _)| *k).collect();
     for i in 0..lg.len() {
         let s = lg.sequences.get(i);
+        let (f, l): (K, K) = (s.first_kmer(), s.last_kmer());
+        if [f, l, f.rc(), l.rc()].iter().any(|k| seen.contains(k)) {
+            continue;
+        }
+        for k in [f, l, f.rc(), l.rc()] {
+            seen.insert(k);
+        }
         let bases: Vec<u8> = (0..s.len()).map(|j| s.get(j)).collect();
         b.add(bases.iter(), lg.exts[i], lg.data[i]);
     }
@@ -167,7 +177,9 @@ pub fn run(opts: &Opts) -> i32 {
             }
         });
     }
-    let n_cases = if opts.tier == Tier::Thorough { 6 } else { 1 };
+    // quick: one graph at the size the property names plus one beyond 2^20 nodes (fewer pool sizes);
+    // thorough: six graphs, the last beyond 2^20 nodes, every pool size
+    let n_cases = if opts.tier == Tier::Thorough { 6 } else { 2 };
     let mut samples = Vec::new();
     let mut violations = 0;
     let mut evals = 0u64;
@@ -176,7 +188,14 @@ pub fn run(opts: &Opts) -> i32 {
     for ci in 0..n_cases {
         let cs = derive(opts.seed, "c19-large", ci);
         let mut rng = Rng::new(cs);
-        let n_target = if opts.tier == Tier::Thorough && ci >= 4 { rng.range(400_000, 1_000_000) } else { rng.range(70_000, 140_000) };
+        let million = (opts.tier == Tier::Thorough && ci == 5) || (opts.tier == Tier::Quick && ci == 1);
+        let n_target = if million {
+            (1usize << 20) + rng.range(1_001, 90_000)
+        } else if opts.tier == Tier::Thorough && ci >= 4 {
+            rng.range(400_000, 1_000_000)
+        } else {
+            rng.range(70_000, 140_000)
+        };
         let stranded = rng.chance(1, 2);
         let mut base = build_base(cs, n_target, stranded);
         {
@@ -212,12 +231,19 @@ pub fn run(opts: &Opts) -> i32 {
             }
         };
         let want_json = simcore::rec::digest_str(&serde_json::to_string(&serial).unwrap());
-        let sizes: Vec<usize> = if opts.tier == Tier::Thorough { (1..=16).collect() } else { vec![1, rng.range(2, 4), rng.range(5, 12), 16] };
+        let sizes: Vec<usize> = if opts.tier == Tier::Thorough {
+            (1..=16).collect()
+        } else if million {
+            vec![rng.range(3, 15), 16]
+        } else {
+            vec![1, rng.range(2, 4), rng.range(5, 12), 16]
+        };
+        let reps = if million && opts.tier == Tier::Quick { 1 } else { 2 };
         let mut case_bad: Option<String> = None;
         for sz in &sizes {
             pools_seen.insert(*sz);
             let pool = rayon::ThreadPoolBuilder::new().num_threads(*sz).build().expect("pool");
-            for rep in 0..2 {
+            for rep in 0..reps {
                 let b = base.clone();
                 let g = match guarded(|| pool.install(|| b.finish())) {
                     Ok(g) => g,
@@ -250,11 +276,12 @@ pub fn run(opts: &Opts) -> i32 {
             }
         }
         println!(
-            "[c19-large] case {}: {} nodes (stranded={}), pool sizes {:?} x2 runs vs serial: {}",
+            "[c19-large] case {}: {} nodes (stranded={}), pool sizes {:?} x{} runs vs serial: {}",
             ci,
             serial.len(),
             stranded,
             sizes,
+            reps,
             case_bad.clone().unwrap_or_else(|| "identical".into())
         );
         samples.push(json!({"case_seed": cs, "nodes": serial.len(), "stranded": stranded, "pool_sizes": sizes, "outcome": case_bad.clone().unwrap_or_else(|| "identical".into())}));
@@ -326,7 +353,7 @@ pub fn run(opts: &Opts) -> i32 {
     let part = json!({
         "check": "c19-large", "property": "C19", "engine": "S (real pool; schedules NOT simulator-controlled)", "tier": opts.tier.as_str(), "seed": opts.seed,
         "evaluations": evals, "planned": evals, "nontrivial_runs": evals, "distinct_nontrivial": pools_seen.len() * n_cases as usize,
-        "rule": "supplementary observation, not simulation: one-node-per-k-mer graphs of 70k-140k nodes (thorough: up to 10^6) finished on real rayon pools (quick: 4 sizes incl. 1 and 16; thorough: every size 1..16), twice each, compared with finish_serial() (every edge list, 12 link lookups per node, serialised index); distinct = (graph, pool size) pairs",
+        "rule": "supplementary observation, not simulation: one-node-per-k-mer graphs of 70k-140k nodes and one of more than 2^20 nodes (thorough: six graphs up to 1.1*10^6) finished on real rayon pools (quick: 4 sizes incl. 1 and 16, two sizes for the 2^20 graph; thorough: every size 1..16), twice each (once for the quick 2^20 graph), compared with finish_serial() (every edge list, 12 link lookups per node, serialised index); distinct = (graph, pool size) pairs",
         "samples": samples,
         "counters": {"env_real_pool_finish_runs": evals, "env_pool_sizes_used": pools_seen.len()},
         "simulated_time_units": 0, "events": evals, "run_digest": "n/a",
